@@ -147,6 +147,20 @@ VCommute(e) == LET d == Docs[e.di] IN
   ELSE IF e.am # MapOver(e.a, GetMap(e.b)) \/ e.bm # MapOver(e.b, GetMap(e.a)) THEN "drift:MapStep"
   ELSE "ok"
 
+(* C08 on mappings of real step histories (with mirror registrations made by rebasing) *)
+VMapping(e) ==
+  LET mp == [maps |-> [j \in 1..Len(e.maps) |-> [ranges |-> e.maps[j].ranges, inv |-> e.maps[j].inv]],
+             mirror |-> e.mirror, from |-> e.from, to |-> e.to] IN
+  IF \E j \in 1..Len(e.maps) : ~RangesOK(e.maps[j].ranges) THEN "skip:ranges"
+  ELSE IF \E j \in 1..Len(e.q) : e.q[j].res.kind # "ok" THEN "bad:MappingRaised"
+  ELSE IF \E j \in 1..Len(e.q) : e.q[j].pos # MappingRes(mp, e.q[j].p, e.q[j].assoc).pos THEN "bad:MappingPos"
+  ELSE IF \E j \in 1..Len(e.q) : e.q[j].del # MappingRes(mp, e.q[j].p, e.q[j].assoc).del THEN "bad:MappingDelInfo"
+  ELSE IF \E j \in 1..Len(e.q) : e.q[j].simple # MappingRes(mp, e.q[j].p, e.q[j].assoc).pos THEN "bad:MappingMapVsMapResult"
+  ELSE IF e.roundtrip /\ (\A j \in 1..Len(e.maps) : \A x \in 1..(Len(e.maps[j].ranges) - 1) :
+                            e.maps[j].ranges[x][1] + e.maps[j].ranges[x][2] < e.maps[j].ranges[x + 1][1])
+          /\ (\E j \in 1..Len(e.q) : e.q[j].pos # e.q[j].p) THEN "bad:MirrorRoundTrip"
+  ELSE "ok"
+
 ----------------------------------------------------------------------------
 (* C07: validity predicates.  A node is given as (type name, content tokens). *)
 NodeKids(e) == LET d == Docs[e.di] IN Kids(d, MatchArr(d), 1, Len(d))
@@ -202,6 +216,7 @@ Verdict(e) ==
     [] e.ev = "Diff" -> VDiff(e)
     [] e.ev = "Merge" -> VMerge(e)
     [] e.ev = "Commute" -> VCommute(e)
+    [] e.ev = "Mapping" -> VMapping(e)
     [] e.ev = "Check" -> VCheck(e)
     [] e.ev = "ValidContent" -> VValidContent(e)
     [] e.ev = "CreateChecked" -> VCreateChecked(e)
